@@ -2,7 +2,12 @@
 // The classes allocate their own line and history storage (unbounded_array -> operator new of
 // exactly the requested size), so ASan sees a write at buf[cap] or past the last history slot.
 // Private state is read (-fno-access-control) only for the fields the property names:
-// _state, _last, _headhist, _curhist, the history bytes, and the terminal's state.
+// _state, _last, _headhist, _curhist, the history bytes, and the terminal's state and its rl member.
+// All of that sits under #ifndef C15_PUBLIC_ONLY: if a private member is renamed, build.sh
+// rebuilds this TU with -DC15_PUBLIC_ONLY (and without -fno-access-control); then the
+// implementation's part of the BFS key comes from public observers only (the line, the history
+// through history_pointer()/current_history_pointer(); nothing for vtermxx, which exposes nothing)
+// joined with the reference state and the last bytes typed.
 #include "c15_models.hpp"
 #include <igris/container/sline.h>
 #include <igris/shell/vtermxx.h>
@@ -43,6 +48,8 @@ namespace
         const char *data() { return sl.data(); }
     };
 
+#ifndef C15_PUBLIC_ONLY
+    const bool PUBLIC_ONLY = false;
     void rl_privkey(std::string &k, igris::readline &rl, unsigned cap)
     {
         char b[64];
@@ -74,9 +81,39 @@ namespace
         return true;
     }
 
+#else
+    const bool PUBLIC_ONLY = true;
+    // public observers only: the history by browse distance (0 = the slot written next = oldest,
+    // 1 = most recent, ...) and which of them the browse pointer designates (browse index modulo
+    // the depth). A ring is described completely by this, whatever the write index is.
+    void rl_privkey(std::string &k, igris::readline &rl, unsigned cap)
+    {
+        size_t n = rl.history_size();
+        const char *cur = rl.current_history_pointer();
+        for (size_t i = 0; i < n; i++)
+        {
+            const char *p = rl.history_pointer((int)i);
+            k += p == cur ? '>' : '/';
+            k.append(p, strnlen(p, cap));
+        }
+    }
+    bool rl_indices_ok(igris::readline &rl, unsigned cap, std::string *why)
+    {
+        size_t n = rl.history_size();
+        for (size_t i = 0; i < n; i++)
+            if (strnlen(rl.history_pointer((int)i), cap) >= cap)
+            {
+                *why = mc::fmt("history entry at distance %zu is not terminated inside its %u bytes", i, cap);
+                return false;
+            }
+        return true;
+    }
+#endif
+
     struct XReadline
     {
         static const char *flavour() { return "cxx"; }
+        static constexpr bool public_only = PUBLIC_ONLY;
         igris::readline rl;
         unsigned cap;
         XReadline(unsigned cap_, unsigned hist) : cap(cap_)
@@ -101,18 +138,22 @@ namespace
     struct XVterm
     {
         static const char *flavour() { return "cxx"; }
+        static constexpr bool public_only = PUBLIC_ONLY, has_line = !PUBLIC_ONLY;
         igris::vtermxx vt;
         unsigned cap;
         XVterm(unsigned cap_, unsigned hist, c15::Sink *sink) : cap(cap_)
         {
             vt.init(cap, hist);
+#ifndef C15_PUBLIC_ONLY
             memset(vt.rl.line().data(), 0x55, cap);
+#endif
             vt.set_execute_callback(igris::make_delegate(cb_exec, (void *)sink));
             vt.set_write_callback(igris::make_delegate(cb_write, (void *)sink));
             vt.set_signal_callback(igris::make_delegate(cb_signal, (void *)sink));
         }
         void feed(int c) { vt.newdata((int16_t)c); }
         void init_step() { vt.init_step(); }
+#ifndef C15_PUBLIC_ONLY
         unsigned len() { return (unsigned)vt.rl.line().current_size(); }
         unsigned cursor() { return (unsigned)vt.rl.line().current_size() - vt.rl.line().rightsize(); }
         const char *data() { return vt.rl.line().data(); }
@@ -122,6 +163,14 @@ namespace
             rl_privkey(k, vt.rl, cap);
         }
         bool indices_ok(std::string *why) { return rl_indices_ok(vt.rl, cap, why); }
+#else
+        // igris::vtermxx exposes nothing but its callbacks
+        unsigned len() { return 0; }
+        unsigned cursor() { return 0; }
+        const char *data() { return ""; }
+        void privkey(std::string &) {}
+        bool indices_ok(std::string *) { return true; }
+#endif
     };
 }
 
